@@ -86,7 +86,7 @@ Proof.
   destruct st as [s ms]. destruct b as [xs|m i c mx|k n| |k]; cbn [lbig fst]; intros H.
   - destruct (list_ops (S (length xs)) xs) as [acts|]; [|discriminate]. injection H as <-. cbn [fst].
     eapply LReach_trans; [apply LReach_trys|apply LReach_settle].
-  - injection H as <-. cbn [fst]. eapply LReach_trans; [apply LReach_try|apply LReach_settle].
+  - destruct (palive s); injection H as <-; cbn [fst]; [eapply LReach_trans; [apply LReach_try|apply LReach_settle]|apply LReach_settle].
   - injection H as <-. cbn [fst]. eapply LReach_trans; [|apply LReach_settle].
     generalize (repeat tt (N.to_nat n)). intros l. revert s. induction l as [|x l IH]; intros s; cbn [fold_left]; [apply LReach_refl|].
     eapply LReach_trans; [|apply IH]. eapply LReach_trans; [apply LReach_settle|apply LReach_try].
